@@ -1,21 +1,34 @@
 """C42 - filter expressions mean what the documented grammar says.
 
-Decided from the source of mitmproxy/flowfilter.py (the pyparsing grammar is read as a table, never built or run):
-  R42.1 operator table: the infix_notation rows are, tightest first, `!` (unary, right-assoc) -> FNot, `&` (binary) -> FAnd,
-        `|` (binary) -> FOr, every operator literal suppressed; juxtaposition (OneOrMore at the top) becomes FAnd for
-        >= 2 items and the item itself for 1; the token nesting handed to FNot / FAnd / FOr matches what their __init__ /
-        __call__ unpack; FAnd.__call__ = all, FOr.__call__ = any, FNot.__call__ = not; default ( ) grouping.
-  R42.2 operator registry: every concrete _Action subclass with a ``code`` is in exactly one of filter_unary / filter_rex /
-        filter_int, the one whose grammar loop supplies as many argument tokens as its constructor takes (digits for _Int);
-        codes are unique; a code that is a proper prefix of a later-tried code is protected by WordEnd(); argument regexes:
-        CharsNotIn excludes ( ) ' " and whitespace, both quote characters have a QuotedString alternative; _Action.make drops
-        the operator token, FUrl.make also accepts the naked form and the naked alternative is wired to the ``~u`` class;
-        _Rex.__init__ compiles with ``... | maybe_ignore_case`` (IGNORECASE unless the env switch), compile errors and
-        ParseException both surface as ValueError; every _Rex class applies its pattern with ``search``.
+Nothing is matched syntactically any more.  ``flowfilter.parse`` - and through it the module constant ``bnf``, ``_make()``, the operator
+registries, helper functions and constants they use, every parse action (``cls.make``, the lambdas of the precedence table) and the
+constructors of the operator classes - is INTERPRETED from its AST (pyint; nothing is imported or run) with ``pyparsing`` bound to a
+model of the pyparsing subset the grammar uses (props/_helpers_pp.py: element constructors, whitespace rules, MatchFirst order, WordEnd,
+CharsNotIn, QuotedString, Word, Group / Suppress / Opt / Forward, infix_notation expanded like helpers.infix_notation does, parse
+actions with arity trimming).  The rules then *parse expression strings* with the grammar the repository code builds and compare the
+resulting filter objects with the documented meaning:
+
+  R42.1 connectives: expression trees over four atoms (two operators without argument, one with an unquoted and one with a quoted regex)
+        with ``!``, ``&``, ``|``, juxtaposition and parentheses - rendered with the minimal parentheses the documented precedence
+        ``! > & > |`` (juxtaposition = conjunction, loosest) needs, with varied spacing and fully parenthesised - are parsed; the
+        resulting object is evaluated (``__call__`` of FAnd / FOr / FNot interpreted, the atoms replaced by truth-value stubs) under
+        every truth assignment and must give the verdict of the documented semantics.  A swapped precedence row, a postfix ``!``, ``&``
+        building FOr, FAnd computing any(), FNot not negating or keeping the token group, an unsuppressed operator literal, juxtaposition
+        building FOr all change the verdict of some expression.  (quick: ~50 trees x up to 3 renderings; thorough: all trees up to depth 2
+        over 3 atoms, sampled.)
+  R42.2 operators: for EVERY concrete operator class (an _Action subclass with a ``code``; codes must be unique) the documented forms
+        ``~code`` / ``~code rex`` / ``~code "r e x"`` / ``~code 'r e x'`` / ``~code 200`` are parsed and must yield exactly one object
+        of that class whose compiled pattern is the argument, found case-insensitively and unanchored in a probe string; a bare regex is
+        ``~u``; invalid expressions / invalid regexes surface as ValueError from parse() (never a pyparsing exception, TypeError or
+        re.error).  So a class missing from its registry, registered in the list of another arity, a duplicate code, a missing
+        WordEnd() (``~bq x`` read as ``~b q`` + ``x``; ``~all`` as ``~a`` + ``ll``), a lost quoted-string alternative, an unquoted regex
+        that swallows the closing parenthesis, make() keeping the operator token, a case-sensitive compile, the naked regex wired to
+        another class are all violations - however the grammar code is organised.  Every regex operator applies its pattern with
+        ``search`` (recorded by R42.3's pattern stub).
   R42.3 documented part of the flow: ``__call__`` of every regex operator class - with its decorators, i.e. through
-        ``only(...)`` - is INTERPRETED from its AST (pyint; nothing is imported or run) on abstract flows of every type
+        ``only(...)`` - is interpreted on abstract flows of every type
         (HTTP with / without response and WebSocket messages, TCP, UDP, DNS with / without response) whose parts are
-        distinct tokens, with a recording pattern in place of ``self.re``.  (a) With a pattern that matches nothing, the set
+        distinct tokens, with a recording pattern in place of the compiled one.  (a) With a pattern that matches nothing, the set
         of parts the pattern is applied to must EQUAL the documented one (table SUBJECTS below: ~d = the host the request
         goes to and the host named by Host/:authority, ~u = the pretty URL / the DNS question name, ~hq = the request
         header block, ~bq = request body + client WebSocket/TCP/UDP messages + DNS request ...) and the verdict is False;
@@ -26,67 +39,49 @@ Decided from the source of mitmproxy/flowfilter.py (the pyparsing grammar is rea
         its constructor: ``~c 200``) is interpreted on the same abstract flows plus variants (error set, marked, replayed request /
         response, status 404, asset content-type on the response / on the request only); the verdict must equal the documented one
         (table _verdict_spec: ~q = HTTP or DNS flow without response, ~a = HTTP response with an asset content-type ...).
-NOT decided: pyparsing's own behaviour (infix_notation precedence climbing, WordEnd, QuotedString escapes), verdict equality
-over generated expressions.
+NOT decided: pyparsing itself (the model is trusted; it was compared with pyparsing 3.3.2 on the repository's grammar by differential
+fuzzing when it was written), verdict equality over *all* generated expressions (a bounded family is decided).
+Findings on today's tree: F-C42juxt (known, ONE finding keyed `R42.1|mitmproxy/flowfilter.py|_make|implicit conjunction inside a
+parenthesised group is rejected`): `(~e ~marked)` is rejected - juxtaposition is only available at the top level.  F-C42paren (an operator
+directly followed by ")" was rejected because WordEnd() counted ")" as a word character) was found by these rules and is fixed in /repo
+6d8fbca37; the tight forms `(~q)`, `(~q | ~s)`, `!(~q)`, `(~u x | ~q)` are required samples and mutant F-C42paren-reverted re-introduces it.
 """
 
 from __future__ import annotations
 
 import ast
-import operator
+import itertools
+import random
+import re as _re
+import types as _types
 
 from ..core import AnalysisError
-from ..core import norm
-from ..model import attr_chain
-from ..model import call_name
-from ..model import last_attr
-from ..model import stmts_of
-from ..model import walk_in_order
 from ..selftest import Mutant
 from ._helpers_F import class_members
-from ._helpers_F import kwarg
-from ._helpers_F import own_nodes
-from ._helpers_F import params_of
 
 PROP = "C42"
 REG = {
     "strength": "partial",
-    "technique": "grammar-as-table extraction from _make (operator rows, literal loops, argument alternatives) + registry agreement "
-    "with the _Action class hierarchy + token-nesting check of the parse actions + interpretation (pyint) of the regex operators' "
-    "__call__ (through their decorators) on abstract flows with a recording pattern",
-    "claim": "precedence ! > & > | with FNot/FAnd/FOr = not/all/any and juxtaposition = FAnd; all 32 operator classes are registered "
-    "once in the list whose grammar loop matches their constructor, with unique codes and prefix-safe literals; operator arguments "
-    "accept unquoted, single- and double-quoted regexes; regexes are compiled case-insensitively and applied with search; bad "
-    "expressions surface as ValueError; every regex operator applies its pattern to exactly the documented parts of each flow type "
-    "(interpreted on abstract flows with a recording pattern) and matches when any one of them matches.",
-    "note": "Trusted: pyparsing (infix_notation: earlier rows bind tighter, default parentheses; MatchFirst order; WordEnd; "
-    "QuotedString; non-parse exceptions from parse actions propagate). Verdict equality over generated expressions is not decided.",
+    "technique": "interpretation (pyint) of flowfilter.parse / _make / parse actions / operator constructors against a model of pyparsing; "
+    "the interpreted grammar parses generated expressions (connective trees, every operator in every argument form) and the resulting "
+    "objects are compared with the documented meaning; interpretation of every operator's __call__ (through its decorators) on abstract "
+    "flows with a recording pattern",
+    "claim": "for a bounded family of expression trees (!, &, |, juxtaposition, parentheses, varied spacing) the parsed filter computes "
+    "the documented connective semantics with precedence ! > & > |; every one of the 32 operator classes is reachable through its "
+    "documented form (unquoted, single- and double-quoted regex, integer) and only through it (prefix-safe codes), its regex is "
+    "compiled case-insensitively and searched; a bare regex is ~u; bad expressions surface as ValueError; every regex operator applies "
+    "its pattern to exactly the documented parts of each flow type and matches when any one of them matches; operators without regex "
+    "give the documented verdict.",
+    "note": "Trusted: the pyparsing model of props/_helpers_pp.py (pyparsing 3.3.2 semantics of the modelled subset; anything else is an "
+    "ANALYSIS-ERROR), `re`. Verdict equality over all generated expressions is not decided.",
 }
 
 F = "mitmproxy/flowfilter.py"
-LISTS = ("filter_unary", "filter_rex", "filter_int")
-OPS = {ast.NotEq: operator.ne, ast.Eq: operator.eq, ast.Gt: operator.gt, ast.GtE: operator.ge, ast.Lt: operator.lt, ast.LtE: operator.le}
-
-
-def flat(expr, op):
-    if isinstance(expr, ast.BinOp) and isinstance(expr.op, op):
-        return flat(expr.left, op) + flat(expr.right, op)
-    return [expr]
-
-
-def pp_call(node, name):
-    return isinstance(node, ast.Call) and last_attr(node.func) == name and attr_chain(node.func) in (f"pp.{name}", f"pyparsing.{name}", name)
-
-
-def strip_copy(node):
-    """regex.copy() -> regex ; x.suppress() stays"""
-    if isinstance(node, ast.Call) and isinstance(node.func, ast.Attribute) and node.func.attr == "copy" and not node.args:
-        return node.func.value
-    return node
+_OS = _types.SimpleNamespace(environ={}, getenv=lambda k, d=None: d)  # no opt-out environment variable set
 
 
 # ---------------------------------------------------------------------------------------------------
-# class registry
+# the interpreted grammar
 
 
 def action_classes(ctx):
@@ -100,463 +95,395 @@ def action_classes(ctx):
     return out
 
 
-def ctor_arity(ctx, q):
-    r = ctx.model.method(F, q, "__init__")
-    if r is None:
-        return 0
-    fn = r[1]
-    a = fn.args
-    if a.vararg or a.kwarg or a.kwonlyargs:
-        raise AnalysisError(f"{q}.__init__ has * / ** / keyword-only parameters (not modelled)")
-    return len(a.posonlyargs + a.args) - 1 - len(a.defaults)
-
-
-def list_literal(ctx, name):
-    vals = ctx.model.module(F).assigns(name)
-    ctx.require(len(vals) == 1 and isinstance(vals[0], ast.List) and all(isinstance(e, ast.Name) for e in vals[0].elts),
-                f"{F}::{name} is not a single list literal of class names")
-    return [e.id for e in vals[0].elts]
-
-
-# ---------------------------------------------------------------------------------------------------
-# _make as a table
-
-
-class Grammar:
+class Harness:
     def __init__(self, ctx):
+        from ..pyint import ClassRef
+        from ._helpers_pp import PPInterp
+
         self.ctx = ctx
-        fn = ctx.func(F, "_make")
-        self.fn = fn
-        self.env: dict[str, ast.AST] = {}
-        self.loops = []  # (listname, has_wordend, arg_nodes, loop)
-        self.naked = None
-        self.parts_name = None
-        self.ret = None
-        for st in stmts_of(fn):
-            if isinstance(st, ast.Assign) and len(st.targets) == 1 and isinstance(st.targets[0], ast.Name):
-                self.env[st.targets[0].id] = st.value
-                continue
-            if isinstance(st, ast.Assign) and len(st.targets) == 1 and isinstance(st.targets[0], ast.Attribute):
-                continue  # unicode_words.skipWhitespace = True
-            if isinstance(st, ast.For):
-                self._loop(st)
-                continue
-            if isinstance(st, ast.Expr) and isinstance(st.value, ast.Call):
-                self._call(st.value)
-                continue
-            if isinstance(st, ast.Return):
-                self.ret = st.value
-                continue
-            raise AnalysisError(f"_make: statement not modelled: {norm(st)}")
-        ctx.require(self.ret is not None, "_make: no return")
+        self.parse_fn = ctx.func(F, "parse")
+        self.it = PPInterp(ctx.model, trusted_modules={"re": _re, "os": _OS})
+        self.classes = action_classes(ctx)
+        ctx.require(len(self.classes) >= 20, f"only {len(self.classes)} _Action subclasses found in {F}")
+        mod = ctx.model.module(F)
+        self.concrete: dict[str, str] = {}
+        for q, (d, anc) in self.classes.items():
+            if "code" in class_members(d, strict=False):
+                v = self.it.class_attr(ClassRef(mod, d), "code", 0)
+                ctx.require(isinstance(v, str) and v != "", f"{q}.code does not evaluate to a non-empty string")
+                self.concrete[q] = v
+        self.by_code: dict[str, list[str]] = {}
+        for q, c in self.concrete.items():
+            self.by_code.setdefault(c, []).append(q)
 
-    def _loop(self, loop):
-        ctx = self.ctx
-        ctx.require(isinstance(loop.iter, ast.Name) and isinstance(loop.target, ast.Name) and not loop.orelse, f"_make: loop not modelled: {norm(loop.iter)}")
-        var = loop.target.id
-        f_expr = None
-        action = appended = False
-        for st in loop.body:
-            if isinstance(st, ast.Assign) and len(st.targets) == 1 and isinstance(st.targets[0], ast.Name):
-                ctx.require(f_expr is None, "_make: loop assigns more than once")
-                fname, f_expr = st.targets[0].id, st.value
-            elif isinstance(st, ast.Expr) and isinstance(st.value, ast.Call):
-                c = st.value
-                if last_attr(c.func) in ("set_parse_action", "setParseAction", "add_parse_action") and attr_chain(c.func).split(".")[0] == fname:
-                    ctx.require(len(c.args) == 1 and attr_chain(c.args[0]) == f"{var}.make", f"_make: parse action of the {loop.iter.id} loop is {norm(c)}, expected {var}.make")
-                    action = True
-                elif last_attr(c.func) == "append" and c.args and isinstance(c.args[0], ast.Name) and c.args[0].id == fname:
-                    self._parts(attr_chain(c.func).split(".")[0])
-                    appended = True
-                else:
-                    raise AnalysisError(f"_make: loop statement not modelled: {norm(st)}")
-            else:
-                raise AnalysisError(f"_make: loop statement not modelled: {norm(st)}")
-        ctx.require(f_expr is not None and action and appended, f"_make: the {loop.iter.id} loop does not build, wire and append one element")
-        elems = flat(f_expr, ast.Add)
-        lit = elems[0]
-        ok = (pp_call(lit, "Literal") and len(lit.args) == 1 and isinstance(lit.args[0], ast.JoinedStr) and len(lit.args[0].values) == 2
-              and isinstance(lit.args[0].values[0], ast.Constant) and lit.args[0].values[0].value == "~"
-              and isinstance(lit.args[0].values[1], ast.FormattedValue) and attr_chain(lit.args[0].values[1].value) == f"{var}.code")
-        ctx.require(ok, f"_make: operator literal of the {loop.iter.id} loop is not pp.Literal(f\"~{{{var}.code}}\"): {norm(lit)}")
-        rest = elems[1:]
-        wordend = bool(rest) and pp_call(rest[0], "WordEnd") and not rest[0].args and not rest[0].keywords
-        args = rest[1:] if wordend else rest
-        for a in args:
-            ctx.require(not pp_call(a, "WordEnd"), "_make: WordEnd() in an unexpected position")
-        self.loops.append((loop.iter.id, wordend, args, loop))
+    def kind(self, q):
+        """'regex' | 'int' | 'none': the documented argument of the operator class"""
+        anc = self.classes[q][1]
+        if "_Rex" in anc[1:]:
+            return "regex"
+        if "_Int" in anc[1:]:
+            return "int"
+        r = self.ctx.model.method(F, q, "__init__")
+        if r is not None:
+            a = r[1].args
+            if len(a.posonlyargs + a.args) - 1 - len(a.defaults) > 0 or a.kwonlyargs:
+                raise AnalysisError(f"{q}: constructor takes arguments but the class is neither a _Rex nor an _Int operator (argument kind unknown)")
+        return "none"
 
-    def _parts(self, name):
-        if self.parts_name is None:
-            v = self.env.get(name)
-            self.ctx.require(isinstance(v, ast.List) and not v.elts, f"_make: {name} does not start as an empty list")
-            self.parts_name = name
-        self.ctx.require(self.parts_name == name, "_make: alternatives are appended to more than one list")
+    def cls_of(self, code):
+        qs = self.by_code.get(code, [])
+        self.ctx.require(len(qs) >= 1, f"no operator class with code {code!r} (the documented operator ~{code} vanished)")
+        return qs[0]
 
-    def _call(self, c):
-        # top-level: f.set_parse_action(FUrl.make) / parts.append(f) for the naked regex
-        root = attr_chain(c.func).split(".")[0]
-        if last_attr(c.func) in ("set_parse_action", "setParseAction") and root in self.env:
-            self.naked = (self.env[root], c.args[0] if c.args else None, root)
-        elif last_attr(c.func) == "append" and c.args and isinstance(c.args[0], ast.Name):
-            self._parts(root)
-            self.ctx.require(self.naked is not None and c.args[0].id == self.naked[2], f"_make: {norm(c)} appends an element that is not modelled")
-        else:
-            raise AnalysisError(f"_make: call not modelled: {norm(c)}")
+    def parse(self, s):
+        """flowfilter.parse(s) interpreted -> the filter object (Rec) | ('raises', exception name)"""
+        from ..pyint import Raised
 
-    def resolve(self, node):
-        seen = 0
-        while isinstance(node, ast.Name) and node.id in self.env and seen < 10:
-            node = self.env[node.id]
-            seen += 1
-        return node
+        try:
+            return self.it.call(F, "parse", s)
+        except Raised as r:
+            return ("raises", r.name)
+
+
+def show(v, depth=0):
+    """short structural rendering of a parsed filter object (class names + string / int attributes)"""
+    from ..pyint import Rec
+
+    if isinstance(v, tuple) and len(v) == 2 and v[0] == "raises":
+        return f"<{v[1]}>"
+    if isinstance(v, Rec):
+        if depth > 6:
+            return v._cls + "(...)"
+        parts = []
+        for k, x in sorted(v.__dict__.items()):
+            if k.startswith("_") or k == "pattern" or isinstance(x, _re.Pattern):
+                continue
+            parts.append(show(x, depth + 1))
+        return v._cls + ("(" + ", ".join(parts) + ")" if parts else "")
+    if isinstance(v, (list, tuple)):
+        return "[" + ", ".join(show(x, depth + 1) for x in v) + "]"
+    return repr(v)
 
 
 # ---------------------------------------------------------------------------------------------------
-# R42.1
+# R42.1: connective semantics, decided by parsing expression trees and evaluating the result
 
 
-def action_depth(lam, want_cls, param_depth):
-    """lambda x: Cls(<arg>)  ->  (class name, nesting depth of <arg>)  with x at ``param_depth``."""
-    if not (isinstance(lam, ast.Lambda) and len(lam.args.args) == 1):
-        raise AnalysisError(f"parse action is not a one-argument lambda: {norm(lam)}")
-    x = lam.args.args[0].arg
-    body = lam.body
-    if not (isinstance(body, ast.Call) and isinstance(body.func, ast.Name) and len(body.args) == 1 and not body.keywords):
-        raise AnalysisError(f"parse action body not modelled: {norm(body)}")
-    return body.func.id, arg_depth(body.args[0], x, param_depth)
+# atoms: (text, operator code)
+ATOMS = [("~e", "e"), ("~marked", "marked"), ("~u cc", "u"), ("~b 'd d'", "b")]
+PREC = {"v": 4, "not": 3, "and": 2, "or": 1, "juxt": 0}
+SEP = {"and": "&", "or": "|", "juxt": ""}
 
 
-def arg_depth(a, x, param_depth):
-    d = param_depth
-    if isinstance(a, ast.Starred):
-        a = a.value
-        d -= 1
-    while isinstance(a, ast.Subscript) and isinstance(a.slice, ast.Constant) and a.slice.value == 0:
-        a = a.value
-        d -= 1
-    if isinstance(a, ast.Call) and isinstance(a.func, ast.Name) and a.func.id == "list" and len(a.args) == 1:
-        a = a.args[0]
-    if not (isinstance(a, ast.Name) and a.id == x):
-        raise AnalysisError(f"parse action argument not modelled: {norm(a)}")
-    return d
+def V(i):
+    return ("v", i)
 
 
-def stored_depth(ctx, cls, depth_in):
-    """depth of the value stored by Cls.__init__(self, p) and the attribute holding it."""
-    init = ctx.func(F, f"{cls}.__init__")
-    ps = params_of(init)
-    ctx.require(len(ps) == 2, f"{cls}.__init__ signature changed")
-    body = stmts_of(init)
-    ctx.require(len(body) == 1 and isinstance(body[0], ast.Assign) and len(body[0].targets) == 1 and attr_chain(body[0].targets[0]).startswith("self."),
-                f"{cls}.__init__ is no longer a single attribute assignment")
-    d = arg_depth(body[0].value, ps[1], depth_in)
-    return attr_chain(body[0].targets[0]), d
+def Not(t):
+    return ("not", t)
 
 
-def call_semantics(ctx, cls):
-    """'all' | 'any' | 'not' | other text, and the attribute used, for Cls.__call__."""
-    fn = ctx.func(F, f"{cls}.__call__")
-    ps = params_of(fn)
-    body = stmts_of(fn)
-    ctx.require(len(ps) == 2 and len(body) == 1 and isinstance(body[0], ast.Return), f"{cls}.__call__ is not a single return")
-    v = body[0].value
-    fparam = ps[1]
-    if isinstance(v, ast.Call) and isinstance(v.func, ast.Name) and v.func.id in ("all", "any") and len(v.args) == 1 and isinstance(v.args[0], (ast.GeneratorExp, ast.ListComp)):
-        g = v.args[0]
-        ok = (len(g.generators) == 1 and not g.generators[0].ifs and isinstance(g.generators[0].target, ast.Name) and isinstance(g.elt, ast.Call)
-              and isinstance(g.elt.func, ast.Name) and g.elt.func.id == g.generators[0].target.id and len(g.elt.args) == 1
-              and isinstance(g.elt.args[0], ast.Name) and g.elt.args[0].id == fparam)
-        ctx.require(ok, f"{cls}.__call__: comprehension not modelled: {norm(v)}")
-        return v.func.id, attr_chain(g.generators[0].iter)
-    if isinstance(v, ast.UnaryOp) and isinstance(v.op, ast.Not) and isinstance(v.operand, ast.Call) and len(v.operand.args) == 1 \
-            and isinstance(v.operand.args[0], ast.Name) and v.operand.args[0].id == fparam:
-        return "not", attr_chain(v.operand.func)
-    if isinstance(v, ast.Call) and len(v.args) == 1 and isinstance(v.args[0], ast.Name) and v.args[0].id == fparam and attr_chain(v.func).startswith("self."):
-        return "identity", attr_chain(v.func)
-    raise AnalysisError(f"{cls}.__call__ not modelled: {norm(v)}")
+def And(*ts):
+    return ("and", list(ts))
 
 
-def check_operators(ctx, g: Grammar):
-    W = (F, "_make", g.fn)
-    ret = g.ret
-    # return expr.set_parse_action(lambda ...)
-    ctx.require(isinstance(ret, ast.Call) and last_attr(ret.func) in ("set_parse_action", "setParseAction") and len(ret.args) == 1, f"_make: return not modelled: {norm(ret)}")
-    top = g.resolve(ret.func.value)
-    ctx.require(pp_call(top, "OneOrMore") and len(top.args) == 1, f"_make: top level is not pp.OneOrMore(...): {norm(top)[:80]}")
-    infix = g.resolve(top.args[0])
-    ctx.require(pp_call(infix, "infix_notation") or pp_call(infix, "infixNotation"), "_make: OneOrMore does not wrap pp.infix_notation")
-    ctx.require(len(infix.args) == 2 and not [k for k in infix.keywords if k.arg not in ("lpar", "rpar")], "_make: infix_notation arguments not modelled")
-    for k in infix.keywords:
-        want = "(" if k.arg == "lpar" else ")"
-        inner = k.value
-        while isinstance(inner, ast.Call) and inner.args:
-            inner = inner.args[0]
-        ctx.check(isinstance(inner, ast.Constant) and inner.value == want, "R42.1", W, f"infix_notation({k.arg}={norm(k.value)})", "grouping no longer uses ( and )")
-    atom = g.resolve(infix.args[0])
-    ctx.require(pp_call(atom, "MatchFirst") and len(atom.args) == 1 and isinstance(atom.args[0], ast.Name) and atom.args[0].id == g.parts_name,
-                f"_make: the infix_notation operand is not pp.MatchFirst({g.parts_name})")
-    rows = g.resolve(infix.args[1])
-    ctx.require(isinstance(rows, ast.List) and all(isinstance(r, ast.Tuple) and len(r.elts) == 4 for r in rows.elts), "_make: operator rows are not 4-tuples")
-    table = []
-    for r in rows.elts:
-        lit, arity, assoc, act = r.elts
-        suppressed = isinstance(lit, ast.Call) and isinstance(lit.func, ast.Attribute) and lit.func.attr == "suppress"
-        base = lit.func.value if suppressed else lit
-        if pp_call(base, "Suppress") and base.args:
-            suppressed, base = True, base.args[0]
-        ctx.require(pp_call(base, "Literal") and base.args and isinstance(base.args[0], ast.Constant), f"_make: operator literal not modelled: {norm(lit)}")
-        ctx.require(isinstance(arity, ast.Constant) and attr_chain(assoc).split(".")[-1] in ("LEFT", "RIGHT"), f"_make: operator row not modelled: {norm(r)}")
-        cls, depth = action_depth(act, None, 2)
-        table.append({"sym": base.args[0].value, "arity": arity.value, "assoc": attr_chain(assoc).split(".")[-1], "cls": cls, "depth": depth, "suppressed": suppressed, "node": r})
-    ctx.cells += 4 * len(table)
-    want = [("!", 1, "FNot", "not", 0), ("&", 2, "FAnd", "all", 1), ("|", 2, "FOr", "any", 1)]
-    syms = [t["sym"] for t in table]
-    ctx.check(syms == [w[0] for w in want], "R42.1", W, f"infix_notation operator order {syms}",
-              "rows are tried tightest-first: the documented precedence is ! > & > |", desc="operator rows in precedence order ! & |")
-    for sym, arity, cls, sem, need_depth in want:
-        row = next((t for t in table if t["sym"] == sym), None)
-        if row is None:
-            ctx.fail("R42.1", W, f"operator {sym} missing", f"the documented operator {sym} is not part of the grammar")
-            continue
-        ok = row["arity"] == arity and row["cls"] == cls and row["suppressed"] and (arity == 2 or row["assoc"] == "RIGHT")
-        ctx.check(ok, "R42.1", W, f"operator row {sym}: arity {row['arity']}, {row['assoc']}, -> {row['cls']}, suppressed={row['suppressed']}",
-                  f"documented: {sym} is {'a prefix' if arity == 1 else 'an infix'} operator building {cls} from its operands only",
-                  desc=f"row {sym}: arity {arity}, {row['assoc']}, suppressed, -> {cls}")
-        # the class really computes the connective, on the right nesting level
-        if not ctx.model.has(F, row["cls"]):
-            raise AnalysisError(f"_make: parse action builds unknown class {row['cls']}")
-        got_sem, used_attr = call_semantics(ctx, row["cls"])
-        attr, d = stored_depth(ctx, row["cls"], row["depth"])
-        ctx.check(got_sem == sem, "R42.1", (F, f"{row['cls']}.__call__", ctx.func(F, f"{row['cls']}.__call__")), f"{sym} -> {row['cls']}.__call__ computes '{got_sem}'",
-                  f"documented meaning of {sym} is '{sem}' over its operands", desc=f"{row['cls']}.__call__ = {sem}")
-        ctx.check(used_attr == attr and d == need_depth, "R42.1", W, f"{sym}: {row['cls']} receives tokens at nesting depth {d} in {attr}, reads {used_attr}",
-                  f"{row['cls']} must end up with {'its operand' if need_depth == 0 else 'the flat list of its operands'} (depth {need_depth})",
-                  desc=f"{row['cls']}: token nesting {row['depth']} -> stored depth {d} in {attr}")
-    # juxtaposition
-    lam = ret.args[0]
-    ctx.require(isinstance(lam, ast.Lambda) and len(lam.args.args) == 1 and isinstance(lam.body, ast.IfExp), f"_make: top-level parse action not modelled: {norm(lam)}")
-    x = lam.args.args[0].arg
+def Or(*ts):
+    return ("or", list(ts))
 
-    def branch(n):
-        t = lam.body.test
-        ok = (isinstance(t, ast.Compare) and len(t.ops) == 1 and type(t.ops[0]) in OPS and isinstance(t.left, ast.Call) and call_name(t.left) == "len"
-              and len(t.left.args) == 1 and isinstance(t.left.args[0], ast.Name) and t.left.args[0].id == x and isinstance(t.comparators[0], ast.Constant))
-        ctx.require(ok, f"_make: top-level parse action test not modelled: {norm(t)}")
-        return lam.body.body if OPS[type(t.ops[0])](n, t.comparators[0].value) else lam.body.orelse
 
-    ok = True
-    why = ""
-    for n in (1, 2, 3):
-        ctx.cells += 1
-        b = branch(n)
-        if n == 1:
-            if isinstance(b, ast.Call):
-                ok, why = False, f"a single item is wrapped into {norm(b)}"
-            else:
-                d = arg_depth(b, x, 1)
-                ctx.require(d in (0, 1), "top-level action: single-item result not modelled")
+def Juxt(*ts):
+    return ("juxt", list(ts))
+
+
+def Grp(t):
+    return ("grp", t)
+
+
+def tree_eval(t, env):
+    k = t[0]
+    if k == "v":
+        return env[t[1]]
+    if k == "grp":
+        return tree_eval(t[1], env)
+    if k == "not":
+        return not tree_eval(t[1], env)
+    vals = [tree_eval(c, env) for c in t[1]]
+    return any(vals) if k == "or" else all(vals)
+
+
+def tree_vars(t):
+    if t[0] == "v":
+        return {t[1]}
+    if t[0] in ("not", "grp"):
+        return tree_vars(t[1])
+    return set().union(*(tree_vars(c) for c in t[1]))
+
+
+def render(t, style):
+    """expression text of tree t.  style: 'plain' (minimal parentheses, written tight: `(~e | ~marked)`, `!(~e)`; single blanks),
+    'wide' (same parentheses, generous whitespace: `(  ~e  |  ~marked\t)`, `! ~e`), 'full' (every compound operand parenthesised, tight)."""
+    wide = style == "wide"
+
+    def paren(text):
+        return f"(  {text}\t)" if wide else f"({text})"
+
+    def go(t, parent):
+        k = t[0]
+        if k == "v":
+            return ATOMS[t[1]][0]
+        if k == "grp":
+            return paren(go(t[1], None))
+        if k == "not":
+            out = ("! " if wide else "!") + go(t[1], "not")
         else:
-            if not (isinstance(b, ast.Call) and isinstance(b.func, ast.Name) and len(b.args) == 1):
-                ok, why = False, f"{n} juxtaposed items give {norm(b)}"
-                continue
-            d = arg_depth(b.args[0], x, 1)
-            attr, sd = stored_depth(ctx, b.func.id, d) if ctx.model.has(F, f"{b.func.id}.__init__") else ("", -1)
-            sem = call_semantics(ctx, b.func.id)[0] if ctx.model.has(F, f"{b.func.id}.__call__") else "?"
-            if not (sem == "all" and sd == 1):
-                ok, why = False, f"{n} juxtaposed items give {norm(b)} (computes '{sem}', nesting {sd})"
-    ctx.check(ok, "R42.1", W, "top-level parse action of OneOrMore(...)", f"juxtaposition must mean conjunction: {why}", desc="juxtaposition: 1 item -> itself, >= 2 items -> FAnd (all)")
+            sep = " " if k == "juxt" else (f"  {SEP[k]} " if wide else f" {SEP[k]} ")
+            out = sep.join(go(c, k) for c in t[1])
+        if parent is not None and (style == "full" or PREC[k] < PREC[parent] or (k == parent and k != "not")):
+            return paren(out)
+        return out
+
+    text = go(t, None)
+    return f"  {text} \t" if wide else text
 
 
-# ---------------------------------------------------------------------------------------------------
-# R42.2
+def _quick_trees():
+    a, b, c, d = V(0), V(1), V(2), V(3)
+    fam = {
+        "negation: ! is a prefix operator that binds tightest": [
+            Not(a), Not(Not(a)), Not(c), And(Not(a), b), And(a, Not(b)), Or(Not(a), b), Or(a, Not(b)), And(Not(a), Not(b)), Not(And(a, b)), Not(Or(a, c)),
+            Juxt(Not(a), b), Or(Not(And(a, b)), c), Not(Not(Or(a, d))),
+        ],
+        "& is conjunction, | is disjunction (chains of any length)": [
+            a, c, d, And(a, b), Or(a, b), And(a, b, c), Or(a, b, c), And(a, b, c, d), Or(a, b, c, d), And(c, d), Or(d, c),
+        ],
+        "precedence: & binds tighter than |": [
+            Or(a, And(b, c)), Or(And(a, b), c), Or(a, And(b, c), d), Or(And(a, b), And(c, d)), Or(a, And(Not(b), c)), Or(And(a, Not(b)), c), Or(And(a, b, c), d), Or(a, b, And(c, d)),
+        ],
+        "parentheses group": [
+            Grp(a), Grp(b), Not(Grp(a)), Grp(Or(a, b)), Grp(Or(c, a)), Grp(And(c, b)), Grp(Grp(c)), And(Or(a, b), c), And(a, Or(b, c)), And(Or(a, b), Or(c, d)), Or(And(a, Or(b, c)), d), Not(Grp(c)), And(a, And(b, c)), Or(a, Or(b, c)), And(Grp(a), Grp(c)),
+        ],
+        "juxtaposition is conjunction (binding loosest)": [
+            Juxt(a, b), Juxt(a, b, c), Juxt(c, d), Juxt(a, Not(b)), Juxt(a, Or(b, c)), Juxt(Or(a, b), c), Juxt(And(a, b), c), Juxt(a, And(b, c)), Juxt(Or(a, b), Or(c, d)),
+            Juxt(Grp(Or(a, b)), c), Juxt(a, Grp(Or(b, c)), d), Juxt(Not(Grp(Or(a, c))), b),
+        ],
+    }
+    return fam
 
 
-def check_registry(ctx, g: Grammar):
-    classes = action_classes(ctx)
-    lists = {n: list_literal(ctx, n) for n in LISTS}
-    loops = {name: (we, args, loop) for name, we, args, loop in g.loops}
-    ctx.require([n for n, *_ in g.loops] == list(LISTS), f"_make: literal loops iterate {[n for n, *_ in g.loops]}, expected {list(LISTS)} in this order")
-    concrete = {}
-    for q, (d, anc) in classes.items():
-        mem = class_members(d, strict=False)
-        if "code" in mem:
-            node = mem["code"]
-            ctx.require(isinstance(node, ast.Assign) and isinstance(node.value, ast.Constant) and isinstance(node.value.value, str), f"{q}.code is not a string constant")
-            concrete[q] = node.value.value
-    for n, members in lists.items():
-        for c in members:
-            ctx.require(c in classes, f"{n} lists {c}, which is not an _Action subclass of flowfilter.py")
-    # the regex argument
-    regex = g.env.get("regex")
-    ctx.require(regex is not None, "_make: local 'regex' vanished")
-    alts = [g.resolve(a) for a in flat(regex, ast.BitOr)]
-    chars = [a for a in alts if pp_call(a, "CharsNotIn")]
-    quoted = [a for a in alts if pp_call(a, "QuotedString")]
-    ctx.require(len(chars) == 1 and len(chars) + len(quoted) == len(alts) and chars[0].args, f"_make: regex alternatives not modelled: {norm(regex)}")
-    excl = flat(chars[0].args[0], ast.Add)
-    consts = "".join(e.value for e in excl if isinstance(e, ast.Constant) and isinstance(e.value, str))
-    ws = any(attr_chain(e).endswith("DEFAULT_WHITE_CHARS") for e in excl) or " " in consts
-    ctx.require(all(isinstance(e, ast.Constant) or attr_chain(e).endswith("DEFAULT_WHITE_CHARS") for e in excl), f"_make: CharsNotIn argument not modelled: {norm(chars[0].args[0])}")
-    missing = [c for c in "()'\"" if c not in consts] + ([] if ws else ["<whitespace>"])
-    ctx.check(not missing, "R42.2", (F, "_make", chars[0]), f"unquoted regex may contain {' '.join(missing)}",
-              "an unquoted argument would swallow the grouping parenthesis / the opening quote / the next word", desc="unquoted regex stops at ( ) ' \" and whitespace")
-    qchars = set()
-    for qs in quoted:
-        ctx.require(qs.args and isinstance(qs.args[0], ast.Constant), f"_make: QuotedString not modelled: {norm(qs)}")
-        qchars.add(qs.args[0].value)
-    for qc in ("\"", "'"):
-        ctx.check(qc in qchars, "R42.2", (F, "_make", g.fn), f"no QuotedString alternative for {qc}", f"arguments quoted with {qc} are documented but not accepted",
-                  desc=f"QuotedString alternative for {qc}")
-    # class <-> list <-> grammar loop agreement
-    pos = {}
-    order = []
-    for n in LISTS:
-        wordend, args, loop = loops[n]
-        kinds = []
-        for a in args:
-            a0 = strip_copy(a)
-            if isinstance(a0, ast.Name) and a0.id == "regex":
-                kinds.append("regex")
-            elif pp_call(a0, "Word") and len(a0.args) == 1 and attr_chain(a0.args[0]) in ("pp.nums", "pyparsing.nums"):
-                kinds.append("digits")
-            else:
-                raise AnalysisError(f"_make: argument element of the {n} loop not modelled: {norm(a)}")
-        for c in lists[n]:
-            order.append((c, n, wordend))
-            pos.setdefault(c, []).append(n)
-            if c not in concrete:
-                ctx.fail("R42.2", (F, n, ctx.model.cls(F, c)), f"{n} lists {c}, which defines no code", "the grammar loop formats cls.code of every listed class")
-                continue
-            ar = ctor_arity(ctx, c)
-            anc = classes[c][1]
-            need = ["digits"] if "_Int" in anc else ["regex"] * ar
-            ctx.check(kinds == need, "R42.2", (F, n, ctx.model.cls(F, c)), f"~{concrete[c]} ({c}) is listed in {n}",
-                      f"the {n} loop supplies {kinds or 'no argument'} but {c}({', '.join(need) or ''}) takes {need or 'none'}: the documented operator is rejected or mis-built",
-                      desc=f"~{concrete[c]} {c} in {n}: grammar supplies {kinds or ['-']}")
-    for c, code in concrete.items():
-        n = len(pos.get(c, []))
-        if n != 1:
-            ctx.fail("R42.2", (F, c, ctx.model.cls(F, c)), f"~{code} ({c}) is registered in {n} lists", "every operator class must be reachable through exactly one grammar loop")
-    by_code = {}
-    for c, code in concrete.items():
-        by_code.setdefault(code, []).append(c)
-    for code, cs in by_code.items():
-        if len(cs) > 1:
-            ctx.fail("R42.2", (F, cs[-1], ctx.model.cls(F, cs[-1])), f"code ~{code} used by {', '.join(sorted(cs))}", "MatchFirst picks the first class: the other operator is unreachable")
-    ctx.ok("R42.2", f"{len(concrete)} operator codes are unique")
-    # prefix safety of the literals (MatchFirst tries alternatives in list order)
-    n_pairs = 0
-    for i, (a, la, wa) in enumerate(order):
-        for b, lb, wb in order[i + 1:]:
-            if a in concrete and b in concrete and concrete[b].startswith(concrete[a]) and concrete[b] != concrete[a]:
-                n_pairs += 1
-                ctx.cells += 1
-                if not wa:
-                    ctx.fail("R42.2", (F, "_make", loops[la][2]), f"~{concrete[a]} is tried before ~{concrete[b]} without WordEnd()",
-                             f"`~{concrete[b]}` is parsed as `~{concrete[a]}` followed by `{concrete[b][len(concrete[a]):]}`")
-    ctx.ok("R42.2", f"{n_pairs} prefix pairs (~a/~all, ~b/~bq, ...) protected by WordEnd()")
-    return classes, concrete, lists
+# F-C42juxt (known limitation of the grammar, ONE finding): the top level is OneOrMore(infix expression) but the parenthesised operand of
+# infix_notation is a single infix expression, so implicit conjunction is not available inside a group.
+JUXT_IN_GROUP = "implicit conjunction inside a parenthesised group is rejected"
 
 
-def check_make_and_rex(ctx, g, classes, concrete):
-    # _Action.make drops the operator token
-    mk = ctx.func(F, "_Action.make")
-    ps = params_of(mk)
-    body = stmts_of(mk)
-    ctx.require(len(ps) == 4 and len(body) == 1 and isinstance(body[0], ast.Return) and isinstance(body[0].value, ast.Call), "_Action.make not modelled")
-    call = body[0].value
-    ok = (isinstance(call.func, ast.Name) and call.func.id == ps[0] and len(call.args) == 1 and isinstance(call.args[0], ast.Starred)
-          and isinstance(call.args[0].value, ast.Subscript) and isinstance(call.args[0].value.slice, ast.Slice)
-          and isinstance(call.args[0].value.slice.lower, ast.Constant) and call.args[0].value.slice.lower.value == 1 and call.args[0].value.slice.upper is None
-          and isinstance(call.args[0].value.value, ast.Name) and call.args[0].value.value.id == ps[3])
-    ctx.check(ok, "R42.2", (F, "_Action.make", mk), norm(body[0]), "the constructor must receive the argument tokens without the operator literal (toks[1:])",
-              desc="_Action.make: cls(*toks[1:])")
-    for q in classes:
-        mem = class_members(classes[q][0], strict=False)
-        if "make" in mem and q not in ("_Action", "FUrl"):
-            raise AnalysisError(f"{q}.make overrides _Action.make (not modelled)")
-    # naked regex -> the ~u class
-    ctx.require(g.naked is not None, "_make: the naked-regex alternative vanished")
-    nk_expr, nk_action, _ = g.naked
-    ucls = [c for c, code in concrete.items() if code == "u"]
-    ok = isinstance(strip_copy(nk_expr), ast.Name) and strip_copy(nk_expr).id == "regex" and nk_action is not None and len(ucls) == 1 and attr_chain(nk_action) == f"{ucls[0]}.make"
-    ctx.check(ok, "R42.2", (F, "_make", g.fn), f"naked regex -> {norm(nk_action) if nk_action is not None else None}", "documented: a bare regex is equivalent to ~u regex",
-              desc=f"naked regex alternative wired to {ucls[0] if ucls else '?'}.make")
-    if ucls:
-        um = ctx.func(F, f"{ucls[0]}.make")
-        txt = norm(um)
-        ps = params_of(um)
-        # accepted shape: if len(toks) > 1: toks = toks[1:]; return cls(*toks)
-        body = stmts_of(um)
-        ok = (len(body) == 2 and isinstance(body[0], ast.If) and norm(body[0].test) in (f"len({ps[3]}) > 1", f"len({ps[3]}) >= 2", f"len({ps[3]}) == 2")
-              and len(body[0].body) == 1 and norm(body[0].body[0]) == f"{ps[3]} = {ps[3]}[1:]" and not body[0].orelse and norm(body[1]) == f"return {ps[0]}(*{ps[3]})")
-        ctx.require(ok, f"{ucls[0]}.make not modelled: {txt}")
-        ctx.ok("R42.2", f"{ucls[0]}.make accepts both `~u rex` and the naked form")
-    # case-insensitive compilation, errors -> ValueError
-    ri = ctx.func(F, "_Rex.__init__")
-    comp = [c for c in own_nodes(ri) if isinstance(c, ast.Call) and call_name(c) == "re.compile"]
-    ctx.require(len(comp) == 1 and (len(comp[0].args) == 2 or kwarg(comp[0], "flags") is not None or len(comp[0].args) == 1), "_Rex.__init__: re.compile call not modelled")
-    flags = comp[0].args[1] if len(comp[0].args) == 2 else kwarg(comp[0], "flags")
-    terms = [norm(t) for t in flat(flags, ast.BitOr)] if flags is not None else []
-    ctx.check("maybe_ignore_case" in terms or "re.IGNORECASE" in terms or "re.I" in terms, "R42.2", (F, "_Rex.__init__", comp[0]), f"re.compile flags: {' | '.join(terms) or '<none>'}",
-              "documented: regular expressions are case-insensitive", desc=f"re.compile(expr, {' | '.join(terms)})")
-    if "maybe_ignore_case" in terms:
-        mic = ctx.model.const(F, "maybe_ignore_case")
-        ctx.require(isinstance(mic, ast.IfExp) or "IGNORECASE" in norm(mic), f"maybe_ignore_case not modelled: {norm(mic)}")
-        if isinstance(mic, ast.IfExp):
-            t = mic.test
-            shape = (isinstance(t, ast.Compare) and len(t.ops) == 1 and isinstance(t.ops[0], (ast.NotEq, ast.Eq)) and isinstance(t.left, ast.Call)
-                     and call_name(t.left) in ("os.environ.get", "os.getenv") and isinstance(t.comparators[0], ast.Constant) and t.comparators[0].value)
-            ctx.require(shape, f"maybe_ignore_case test not modelled: {norm(t)}")
-            default = mic.body if isinstance(t.ops[0], ast.NotEq) else mic.orelse  # env variable unset: get() is None != "1"
-            ctx.check("re.IGNORECASE" in norm(default) or "re.I)" in norm(default) or norm(default) == "re.I", "R42.2", (F, "<module>", mic), f"maybe_ignore_case defaults to {norm(default)}",
-                      "without the opt-out environment variable regexes must be case-insensitive", desc=f"maybe_ignore_case = {norm(default)} unless {norm(t.left.args[0])} is set")
-    # compile error -> ValueError ; parse: ParseException -> ValueError
-    tries = [t for t in own_nodes(ri) if isinstance(t, ast.Try) and any(c is comp[0] for b in t.body for c in ast.walk(b))]
-    ok = bool(tries) and any((h.type is None or last_attr(h.type) in ("Exception", "error", "BaseException") or "error" in norm(h.type)) and
-                             any(isinstance(s, ast.Raise) and s.exc is not None and last_attr(s.exc) == "ValueError" for s in h.body) for h in tries[0].handlers)
-    ctx.check(ok, "R42.2", (F, "_Rex.__init__", ri), "re.compile failure handling", "an invalid regex must surface as ValueError from parse()", desc="invalid regex -> ValueError")
-    pf = ctx.func(F, "parse")
-    ptries = [t for t in own_nodes(pf) if isinstance(t, ast.Try) and any(isinstance(c, ast.Call) and last_attr(c.func) in ("parse_string", "parseString") for b in t.body for c in ast.walk(b))]
-    ctx.require(len(ptries) == 1, "parse: the parse_string call is no longer inside one try block")
-    caught = []
-    raises_value = False
-    for h in ptries[0].handlers:
-        names = [last_attr(e) for e in (h.type.elts if isinstance(h.type, ast.Tuple) else [h.type])] if h.type is not None else ["BaseException"]
-        rv = any(isinstance(s, ast.Raise) and s.exc is not None and last_attr(s.exc) == "ValueError" for s in h.body)
-        if rv:
-            caught += names
-            raises_value = True
-    ctx.check(raises_value and any(n in ("ParseException", "ParseBaseException", "Exception", "BaseException") for n in caught), "R42.2", (F, "parse", ptries[0]),
-              f"parse maps {caught or 'nothing'} to ValueError", "a syntactically invalid expression must raise ValueError, not a pyparsing exception", desc=f"parse: {caught} -> ValueError")
-    # every regex operator applies its pattern with search()
-    n = 0
-    for q, (d, anc) in classes.items():
-        if "_Rex" not in anc[1:] or q not in concrete:
-            continue
-        fn = ctx.func(F, f"{q}.__call__")
-        uses = [x for x in ast.walk(fn) if isinstance(x, ast.Attribute) and attr_chain(x) == "self.re"]
-        ctx.require(uses, f"{q}.__call__ never uses self.re")
+def _juxt_in_group_trees():
+    a, b, c, d = V(0), V(1), V(2), V(3)
+    return [Grp(Juxt(a, b)), Grp(Juxt(c, d)), Not(Grp(Juxt(a, c))), Juxt(a, Grp(Juxt(b, c))), And(Grp(Juxt(a, b)), c), Or(a, Grp(Juxt(b, c))), Grp(Juxt(a, Or(b, c))), Grp(Juxt(a, b, c))]
+
+
+def _thorough_trees():
+    """trees of depth <= 3 over three atoms; juxtaposition only at the top level (inside a group it is the known finding F-C42juxt,
+    decided by its own sample family)"""
+    leaves = [V(0), V(1), V(2)]
+    level1 = leaves + [Not(x) for x in leaves]
+    flat = []
+    for k in (And, Or):
+        for n in (2, 3):
+            for combo in itertools.product(level1, repeat=n):
+                flat.append(k(*combo))
+    rnd = random.Random(42)
+    deep = []
+    for _ in range(260):
+        k = rnd.choice((And, Or))
+        kids = [rnd.choice(flat) if rnd.random() < 0.6 else rnd.choice(level1) for _ in range(rnd.choice((2, 3)))]
+        t = k(*kids)
+        deep.append(Not(t) if rnd.random() < 0.3 else t)
+    inner = rnd.sample(flat, 100) + deep
+    juxt = [Juxt(*[rnd.choice(inner) if rnd.random() < 0.5 else rnd.choice(level1) for _ in range(rnd.choice((2, 3)))]) for _ in range(120)]
+    return inner + juxt
+
+
+def check_connectives(ctx, h: Harness):
+    from ..pyint import Raised
+    from ..pyint import Rec
+
+    leaf_cls = [h.cls_of(code) for _, code in ATOMS]
+    ctx.require(len(set(leaf_cls)) == len(leaf_cls), "R42.1: the atoms of the sample expressions are not four different operator classes")
+    W = (F, "parse", h.parse_fn)
+
+    def leaves_of(v, seen):
+        if id(v) in seen:
+            return
+        seen.add(id(v))
+        if isinstance(v, Rec):
+            if v._cls in leaf_cls:
+                yield v
+                return
+            for k, x in v.__dict__.items():
+                if not k.startswith("_"):
+                    yield from leaves_of(x, seen)
+        elif isinstance(v, (list, tuple)):
+            for x in v:
+                yield from leaves_of(x, seen)
+
+    def decide(tree, text):
+        """None if `text` parses to an object computing `tree`, else why not"""
+        got = h.parse(text)
+        if not isinstance(got, Rec):
+            return f"is rejected: {show(got)}"
+        env: dict = {}
+
+        def stub(i):
+            def f(flow):
+                return env[i]
+
+            f._pyint_accepts_abstract = True
+            return f
+
+        for leaf in leaves_of(got, set()):
+            object.__setattr__(leaf, "__call__", stub(leaf_cls.index(leaf._cls)))
+        vs = sorted(tree_vars(tree))
+        for vals in itertools.product((False, True), repeat=len(vs)):
+            env.clear()
+            env.update(dict(zip(vs, vals)))
+            for i in range(len(ATOMS)):
+                env.setdefault(i, False)
+            ctx.cells += 1
+            want = tree_eval(tree, env)
+            try:
+                verdict = h.it.truthy(h.it.apply(got, ["<flow>"], {}, 0))
+            except Raised as r:
+                return f"parses to {show(got)}, whose verdict raises {r.name}"
+            if verdict != want:
+                how = ", ".join(f"{ATOMS[i][0]}={env[i]}" for i in vs)
+                return f"parses to {show(got)}: with {how} the verdict is {verdict}, documented {want}"
+        return None
+
+    families = _quick_trees()
+    if ctx.tier == "thorough":
+        families = dict(families)
+        families["generated trees (depth <= 3 over three atoms, sampled)"] = _thorough_trees()
+    n_expr = 0
+    for title, trees in families.items():
         bad = []
-        for u in uses:
-            par = u._parent
-            if isinstance(par, ast.Attribute) and isinstance(par._parent, ast.Call) and par._parent.func is par:
-                if par.attr != "search":
-                    bad.append(par.attr)
-            elif isinstance(par, ast.Call) and call_name(par) == "_check_content_type" and par.args and par.args[0] is u:
-                pass
-            else:
-                raise AnalysisError(f"{q}.__call__: use of self.re not modelled: {norm(par)}")
-        ctx.check(not bad, "R42.2", (F, f"{q}.__call__", fn), f"~{concrete[q]}: self.re.{'/'.join(sorted(set(bad)))}(...)",
-                  "documented: the regex is searched in the field (Python re.search), not anchored", desc=f"~{concrete[q]} {q}: self.re.search")
+        for t in trees:
+            texts = []
+            for style in ("plain", "wide", "full"):
+                x = render(t, style)
+                if x not in texts:
+                    texts.append(x)
+            for text in texts:
+                n_expr += 1
+                why = decide(t, text)
+                if why:
+                    bad.append((text, why))
+        ctx.check(not bad, "R42.1", W, f"{title}: `{bad[0][0]}`" if bad else title, f"`{bad[0][0]}` {bad[0][1]}" + (f" (+{len(bad) - 1} more expressions)" if len(bad) > 1 else "") if bad else "",
+                  desc=f"{title}: {len(trees)} trees", examples=[f"{t} {w}"[:240] for t, w in bad[:6]])
+    # implicit conjunction inside parentheses: every rejected rendering is the ONE (known) finding F-C42juxt, keyed by a constant
+    # construct; a rendering that is accepted with a wrong verdict, or fails in another way, is a separate violation.
+    rejected, wrong = [], []
+    trees = _juxt_in_group_trees()
+    for t in trees:
+        for style in ("plain", "wide"):
+            text = render(t, style)
+            n_expr += 1
+            why = decide(t, text)
+            if why and why.startswith("is rejected: <ValueError>"):
+                rejected.append(text)
+            elif why:
+                wrong.append((text, why))
+    make = ctx.model.module(F).get("_make") or h.parse_fn
+    ctx.check(not rejected, "R42.1", (F, "_make", make), JUXT_IN_GROUP,
+              f"juxtaposition means conjunction only at the top level of an expression: `{rejected[0]}` is rejected with ValueError although `{render(trees[0][1], 'plain')}` is accepted "
+              f"({len(rejected)} of {2 * len(trees)} renderings rejected)" if rejected else "", desc=f"implicit conjunction inside a parenthesised group: {len(trees)} trees", examples=rejected[:6])
+    if wrong:
+        ctx.fail("R42.1", W, f"implicit conjunction inside a parenthesised group: `{wrong[0][0]}`", f"`{wrong[0][0]}` {wrong[0][1]}", examples=[f"{t} {w}"[:240] for t, w in wrong[:6]])
+    ctx.bounds.append(f"R42.1: {n_expr} expressions parsed with the interpreted grammar and evaluated under every truth assignment of their atoms")
+
+
+# ---------------------------------------------------------------------------------------------------
+# R42.2: every operator in its documented forms
+
+
+INVALID = ["", "~", "~nosuchoperator", "~b", "~c", "~c x", "( ~e", "~e )", "~b (", '~b "', "~b 'x", "()", "~e ~", "~q~s"]
+BAD_REGEX = ["~b [", '~b "("', "~u '(?P<x'", "*"]
+
+
+def check_operator_forms(ctx, h: Harness):
+    from ..pyint import Rec
+
+    W = (F, "parse", h.parse_fn)
+    for code, qs in sorted(h.by_code.items()):
+        if len(qs) > 1:
+            ctx.fail("R42.2", (F, qs[-1], ctx.model.cls(F, qs[-1])), f"code ~{code} used by {', '.join(sorted(qs))}", "one expression cannot mean two operators: one of the classes is unreachable")
+    ctx.ok("R42.2", f"{len(h.concrete)} operator codes are unique")
+
+    def pattern_of(rec):
+        pats = [v for k, v in rec.__dict__.items() if isinstance(v, _re.Pattern)]
+        return pats[0] if len(pats) == 1 else None
+
+    def regex_problem(rec, arg, probe):
+        pat = pattern_of(rec)
+        if pat is None:
+            return "the object holds no single compiled pattern"
+        text = pat.pattern.decode("utf-8", "replace") if isinstance(pat.pattern, bytes) else pat.pattern
+        if text != arg:
+            return f"the pattern compiled is {text!r}, not the argument {arg!r}"
+        subject = probe.encode() if isinstance(pat.pattern, bytes) else probe
+        if not pat.search(subject):
+            return f"the pattern does not find {probe!r} (documented: case-insensitive search)"
+        return None
+
+    FORMS = [("~{c} foo", "foo", "xx-FOO-xx"), ('~{c} "Fo o"', "Fo o", "a fO O b"), ("~{c} 'fo o.*z'", "fo o.*z", "FO O--Z"), ("\t~{c}   foo.bar  ", "foo.bar", "FOOxBAR"),
+             ("(~{c} foo)", "foo", "FOO")]  # an unquoted argument ends at the closing parenthesis
+    n = 0
+    for q, code in sorted(h.concrete.items(), key=lambda kv: kv[1]):
+        if len(h.by_code[code]) > 1:
+            continue
+        kind = h.kind(q)
+        forms = [(f"~{code}", None, None), (f"  ~{code} ", None, None), (f"(~{code})", None, None)] if kind == "none" else \
+            [(f"~{code} 200", None, None), (f"~{code}  404 ", None, None), (f"(~{code} 200)", None, None)] if kind == "int" else \
+            [(t.format(c=code), a, p) for t, a, p in FORMS]
+        problems = []
+        for text, arg, probe in forms:
+            n += 1
+            got = h.parse(text)
+            if not isinstance(got, Rec):
+                problems.append(f"`{text}` is rejected ({show(got)})")
+            elif got._cls != q:
+                problems.append(f"`{text}` is parsed as {show(got)}")
+            elif arg is not None:
+                why = regex_problem(got, arg, probe)
+                if why:
+                    problems.append(f"`{text}`: {why}")
+        ctx.check(not problems, "R42.2", (F, q, ctx.model.cls(F, q)), f"~{code} ({q}): {problems[0] if problems else ''}"[:300],
+                  f"documented: `~{code}{' regex' if kind == 'regex' else ' int' if kind == 'int' else ''}` is '{_help_of(h.classes[q][0])}' - the expression must be accepted and build exactly this operator",
+                  desc=f"~{code} {q}: {len(forms)} {kind if kind != 'none' else 'argument-less'} forms", examples=problems[:4])
+    # a bare regex is ~u
+    ucls = h.cls_of("u")
+    problems = []
+    for text, arg, probe in (("foo", "foo", "x-FOO"), ('"Fo o"', "Fo o", "fo o"), (" 'a.c' ", "a.c", "ABC")):
         n += 1
-    cct = ctx.func(F, "_check_content_type")
-    meths = {x.attr for x in ast.walk(cct) if isinstance(x, ast.Attribute) and isinstance(x.value, ast.Name) and x.value.id == params_of(cct)[0]}
-    ctx.check(meths == {"search"}, "R42.2", (F, "_check_content_type", cct), f"_check_content_type applies rex.{'/'.join(sorted(meths))}", "content-type operators must search", desc="_check_content_type: rex.search")
-    # _Int
-    ii = ctx.func(F, "_Int.__init__")
-    ctx.require(any(isinstance(c, ast.Call) and call_name(c) == "int" for c in ast.walk(ii)), "_Int.__init__ no longer converts with int()")
+        got = h.parse(text)
+        if not isinstance(got, Rec) or got._cls != ucls:
+            problems.append(f"`{text}` is parsed as {show(got)}")
+        else:
+            why = regex_problem(got, arg, probe)
+            if why:
+                problems.append(f"`{text}`: {why}")
+    ctx.check(not problems, "R42.2", W, f"naked regex -> {problems[0] if problems else ucls}"[:300], "documented: a bare regex is equivalent to ~u regex", desc=f"bare regex is ~u ({ucls})", examples=problems[:4])
+    # errors surface as ValueError
+    problems = []
+    for text in INVALID + BAD_REGEX:
+        n += 1
+        got = h.parse(text)
+        if isinstance(got, tuple) and got[0] == "raises" and got[1] != "ValueError":
+            problems.append(f"parse({text!r}) raises {got[1]}")
+        elif text in BAD_REGEX and isinstance(got, Rec) and pattern_of(got) is not None:
+            problems.append(f"parse({text!r}) accepts the invalid regex: {show(got)}")
+    ctx.check(not problems, "R42.2", W, f"invalid expressions: {problems[0] if problems else 'ValueError'}"[:300],
+              "a syntactically invalid expression or regex must surface as ValueError from parse(), not as a pyparsing / re exception", desc=f"{len(INVALID) + len(BAD_REGEX)} invalid expressions: ValueError (or accepted)", examples=problems[:4])
+    ctx.cells += n
+    ctx.bounds.append(f"R42.2: {n} operator forms parsed with the interpreted grammar")
 
 
 # ---------------------------------------------------------------------------------------------------
@@ -591,19 +518,28 @@ class _Dns(_Part):
 
 
 class _Pat:
-    """stands for a compiled pattern: records what it is applied to; matches ``hit`` only"""
+    """stands for a compiled pattern: records what it is applied to and how; matches ``hit`` only"""
 
     flags = 0
 
-    def __init__(self, hit=None):
+    def __init__(self, hit=None, how=None):
         self.hit = hit
         self.seen = []
+        self.how = how if how is not None else set()
 
-    def search(self, subject, *a):
+    def _apply(self, how, subject):
+        self.how.add(how)
         self.seen.append(subject)
         return self if (self.hit is not None and subject == self.hit) else None
 
-    match = fullmatch = search
+    def search(self, subject, *a):
+        return self._apply("search", subject)
+
+    def match(self, subject, *a):
+        return self._apply("match", subject)
+
+    def fullmatch(self, subject, *a):
+        return self._apply("fullmatch", subject)
 
 
 def _msg(text, from_client):
@@ -668,15 +604,17 @@ def _subjects():
     return {code: {kind: (everywhere[code] if code in everywhere else table[kind].get(code, set())) for kind in table} for code in codes}
 
 
-def check_subjects(ctx, classes, concrete):
+def check_subjects(ctx, h):
+    from ..pyint import ClassRef
     from ..pyint import Func
-    from ..pyint import Interp
     from ..pyint import Raised
     from ..pyint import Rec
+    from ._helpers_pp import PPInterp
 
+    classes, concrete = h.classes, h.concrete
     spec = _subjects()
     flows = _flows()
-    rex = {q: concrete[q] for q, (d, anc) in classes.items() if "_Rex" in anc[1:] and q in concrete}
+    rex = {q: concrete[q] for q in classes if q in concrete and h.kind(q) == "regex"}
     ctx.require(len(rex) >= 10, f"only {len(rex)} regex operator classes found")
     undocumented = sorted(code for code in rex.values() if code not in spec)
     ctx.require(not undocumented, f"R42.3 has no documented-subject row for the regex operator(s) {', '.join('~' + c for c in undocumented)}: extend SUBJECTS")
@@ -684,18 +622,29 @@ def check_subjects(ctx, classes, concrete):
     n = 0
     for q, code in sorted(rex.items(), key=lambda kv: kv[1]):
         anc = classes[q][1]
-        want_type = str if "_StrRex" in anc else bytes if "_BinRex" in anc else None
+        # the operator as its constructor builds it from the argument "x"; its compiled pattern (whatever the attribute is called) is then
+        # replaced by the recording stub.  The pattern's type (str / bytes) is the type the subjects must have.
+        try:
+            proto = h.it.apply(ClassRef(mod, classes[q][0]), ["x"], {}, 0)
+        except Raised as e:
+            raise AnalysisError(f"{q}('x') raises {e.name}")
+        slots = [k for k, v in proto.__dict__.items() if isinstance(v, _re.Pattern)]
+        ctx.require(len(slots) == 1, f"{q}('x') holds {len(slots)} compiled patterns (expected exactly one)")
+        want_type = bytes if isinstance(proto.__dict__[slots[0]].pattern, bytes) else str
         r = ctx.model.method(F, q, "__call__")
         ctx.require(r is not None, f"{q}.__call__ vanished")
         fn = r[1]
         problems = []
+        how: set = set()
 
         def run(kind, pat):
-            it = Interp(ctx.model)
+            it = PPInterp(ctx.model, trusted_modules={"re": _re, "os": _OS})
             func = Func(r[0], fn)
             for dec in reversed(fn.decorator_list):
                 func = it.apply(it.ev(dec, {}, r[0], 0), [func], {}, 0)
-            me = Rec(q, _bases=tuple(anc[1:]), _impl=(F, q), re=pat, expr="x")
+            attrs = {k: v for k, v in proto.__dict__.items() if not k.startswith("_")}
+            attrs[slots[0]] = pat
+            me = Rec(q, _bases=tuple(anc[1:]), _impl=(F, q), **attrs)
             try:
                 return it.truthy(it.apply(func, [me, flows[kind]], {}, 0))
             except Raised as e:
@@ -703,7 +652,7 @@ def check_subjects(ctx, classes, concrete):
 
         for kind in flows:
             want = spec[code][kind]
-            pat = _Pat()
+            pat = _Pat(how=how)
             verdict = run(kind, pat)
             n += 1
             got = set(pat.seen)
@@ -723,12 +672,15 @@ def check_subjects(ctx, classes, concrete):
                 continue
             for hit in sorted(want, key=repr):
                 n += 1
-                v = run(kind, _Pat(hit))
+                v = run(kind, _Pat(hit, how=how))
                 if v is not True:
                     problems.append(f"on a {kind} flow whose {hit!r} matches the verdict is {v if isinstance(v, str) else 'False'}")
         ctx.check(not problems, "R42.3", (F, f"{q}.__call__", fn), f"~{code} ({q}): {problems[0] if problems else ''}"[:300],
                   f"documented: ~{code} is '{_help_of(classes[q][0])}' - the regex must be searched in exactly that part of the flow, and a match in any of its parts matches",
                   desc=f"~{code} {q}: " + "; ".join(f"{kind}: {len(spec[code][kind])}" for kind in flows if spec[code][kind]))
+        anchored = sorted(how - {"search"})
+        ctx.check(not anchored, "R42.2", (F, f"{q}.__call__", fn), f"~{code}: pattern applied with {'/'.join(anchored) or 'search'}()",
+                  "documented: the regex is searched in the field (Python re.search), not anchored", desc=f"~{code} {q}: pattern applied with search()")
     ctx.cells += n
     ctx.bounds.append("R42.3: one abstract flow per kind (HTTP with response+WebSocket / without, TCP, UDP, DNS with / without response); bodies, headers and peers present")
 
@@ -759,17 +711,15 @@ def _verdict_spec():
     }
 
 
-def check_verdicts(ctx, classes, concrete):
-    import re as _re
-
+def check_verdicts(ctx, h):
     from ..pyint import ClassRef
     from ..pyint import Func
-    from ..pyint import Interp
     from ..pyint import Raised
-    from ..pyint import Rec
+    from ._helpers_pp import PPInterp
 
+    classes, concrete = h.classes, h.concrete
     spec = _verdict_spec()
-    plain = {q: concrete[q] for q, (d, anc) in classes.items() if "_Rex" not in anc[1:] and q in concrete}
+    plain = {q: concrete[q] for q in classes if q in concrete and h.kind(q) != "regex"}
     undocumented = sorted(code for code in plain.values() if code not in spec)
     ctx.require(not undocumented, f"R42.4 has no verdict row for the operator(s) {', '.join('~' + c for c in undocumented)}: extend _verdict_spec")
     base = dict(error=False, marked=False, replay=None, status=200, asset=None)
@@ -782,16 +732,15 @@ def check_verdicts(ctx, classes, concrete):
         worlds.append((v, fl))
     n = 0
     for q, code in sorted(plain.items(), key=lambda kv: kv[1]):
-        anc = classes[q][1]
         r = ctx.model.method(F, q, "__call__")
         ctx.require(r is not None, f"{q}.__call__ vanished")
         fn = r[1]
         problems = []
         for v, fl in worlds:
             for kind, flow in fl.items():
-                it = Interp(ctx.model, trusted_modules={"re": _re})
+                it = PPInterp(ctx.model, trusted_modules={"re": _re, "os": _OS})
                 try:
-                    me = it.apply(ClassRef(ctx.model.module(F), classes[q][0]), ["200"] if "_Int" in anc else [], {}, 0)
+                    me = it.apply(ClassRef(ctx.model.module(F), classes[q][0]), ["200"] if h.kind(q) == "int" else [], {}, 0)
                     func = Func(r[0], fn)
                     for dec in reversed(fn.decorator_list):
                         func = it.apply(it.ev(dec, {}, r[0], 0), [func], {}, 0)
@@ -815,24 +764,28 @@ def _help_of(cls: ast.ClassDef) -> str:
 
 
 def check(ctx):
-    ctx.rule("R42.1", "infix_notation rows are ! (prefix) > & > | mapped to FNot/FAnd/FOr = not/all/any with matching token nesting; juxtaposition = FAnd")
-    ctx.rule("R42.2", "every operator class is registered once, in the list whose grammar loop matches its constructor; unique, prefix-safe codes; quoted and "
-             "unquoted arguments; case-insensitive search; errors surface as ValueError")
+    ctx.rule("R42.1", "expression trees over !, &, |, juxtaposition and parentheses, parsed with the interpreted grammar, compute the documented connective semantics (precedence ! > & > |, juxtaposition = conjunction)")
+    ctx.rule("R42.2", "every operator class is reachable through its documented form(s) and only through them (unique, prefix-safe codes; quoted and unquoted arguments); "
+             "regexes are compiled case-insensitively and searched; a bare regex is ~u; errors surface as ValueError")
     ctx.rule("R42.3", "every regex operator applies its pattern to exactly the documented parts of each flow type (interpreted on abstract flows with a recording pattern) and "
              "matches when any one of them matches")
     ctx.rule("R42.4", "every operator without a regex argument (~q ~s ~e ~a ~c ~http ...) gives the documented verdict on abstract flows of every type (interpreted through its decorators)")
-    g = Grammar(ctx)
-    check_operators(ctx, g)
-    classes, concrete, lists = check_registry(ctx, g)
-    check_make_and_rex(ctx, g, classes, concrete)
-    ctx.guard(check_subjects, ctx, classes, concrete)
-    ctx.guard(check_verdicts, ctx, classes, concrete)
-    ctx.note(f"{len(concrete)} operator classes: " + ", ".join(f"{n}={len(v)}" for n, v in lists.items()))
-    ctx.trust("pyparsing: infix_notation binds earlier rows tighter and groups with ( ); MatchFirst tries alternatives in order; WordEnd; QuotedString; "
+    h = Harness(ctx)
+    concrete = h.concrete
+    ctx.guard(check_connectives, ctx, h)
+    ctx.guard(check_operator_forms, ctx, h)
+    ctx.guard(check_subjects, ctx, h)
+    ctx.guard(check_verdicts, ctx, h)
+    kinds = {}
+    for q in concrete:
+        kinds.setdefault(h.kind(q), []).append(q)
+    ctx.note(f"{len(concrete)} operator classes: " + ", ".join(f"{k}={len(v)}" for k, v in sorted(kinds.items())))
+    ctx.trust("the pyparsing model (props/_helpers_pp.py): element constructors and their whitespace flags, MatchFirst order, WordEnd, CharsNotIn, QuotedString, Word, "
+              "Group / Suppress / Opt / Forward, infix_notation as expanded by pyparsing 3.3.2, parse-action arity trimming and result wrapping; "
               "exceptions other than ParseBaseException raised by parse actions propagate")
-    if not ctx.findings:  # a violated obligation can skip dependent instances; the run fails anyway
-        ctx.expect_instances("R42.1", 1 + 3 * 3 + 1)
-        ctx.expect_instances("R42.2", 3 + 32 + 2 + 3 + 4 + 17 + 1)
+    if all(f.construct == JUXT_IN_GROUP for f in ctx.findings) and not ctx.deferred:  # a violated obligation can skip dependent instances; the run fails anyway
+        ctx.expect_instances("R42.1", 6 + (1 if ctx.tier == "thorough" else 0))
+        ctx.expect_instances("R42.2", 1 + 32 + 1 + 1 + 17)
         ctx.expect_instances("R42.3", 17)
         ctx.expect_instances("R42.4", 15)
 
@@ -851,8 +804,10 @@ MUTANTS = [
     Mutant("operator-dropped-from-list", F, "    FUrl,\n    FMeta,\n", "    FUrl,\n", "R42.2"),
     Mutant("duplicate-code", F, "    code = \"marker\"", "    code = \"marked\"", "R42.2"),
     Mutant("rex-class-in-unary-list", F, "    FAll,\n]", "    FAll,\n    FSrc,\n]", "R42.2"),
-    Mutant("rex-literals-without-wordend", F, "f = pp.Literal(f\"~{cls.code}\") + pp.WordEnd() + regex.copy()", "f = pp.Literal(f\"~{cls.code}\") + regex.copy()", "R42.2"),
-    Mutant("unary-literals-without-wordend", F, "f = pp.Literal(f\"~{cls.code}\") + pp.WordEnd()\n", "f = pp.Literal(f\"~{cls.code}\")\n", "R42.2"),
+    Mutant("rex-literals-without-wordend", F, "f = pp.Literal(f\"~{cls.code}\") + word_end + regex.copy()", "f = pp.Literal(f\"~{cls.code}\") + regex.copy()", "R42.2"),
+    Mutant("unary-literals-without-wordend", F, "f = pp.Literal(f\"~{cls.code}\") + word_end\n", "f = pp.Literal(f\"~{cls.code}\")\n", "R42.2"),
+    # reverse of the F-C42paren fix (6d8fbca37): ")" is a word character again, `(~q)` is rejected
+    Mutant("F-C42paren-reverted", F, "word_end = pp.WordEnd(\"\".join(c for c in pp.printables if c not in \"()\"))", "word_end = pp.WordEnd()", "R42.1"),
     Mutant("single-quotes-not-accepted", F, "        | pp.QuotedString('\"', esc_char=\"\\\\\")\n        | pp.QuotedString(\"'\", esc_char=\"\\\\\")\n", "        | pp.QuotedString('\"', esc_char=\"\\\\\")\n", "R42.2"),
     Mutant("unquoted-regex-eats-parenthesis", F, "pp.CharsNotIn(\"()~'\\\"\" +", "pp.CharsNotIn(\"~'\\\"\" +", "R42.2"),
     Mutant("case-sensitive-compile", F, "re.compile(expr, self.flags | maybe_ignore_case)", "re.compile(expr, self.flags)", "R42.2"),
